@@ -26,7 +26,7 @@ ASSUMPTIONS = ["vf.oracle.refeval is the meaning of a graph (guarded by the NumP
 MIN_MONITOR = {"mon.policies": 1500, "mon.value": 1500, "mon.rewritten": 300,
                "mon.nobroadcast": 200, "mon.nobroadcast_rewritten": 20}
 SHARD_TIMEOUT = {"quick": 900, "thorough": 7200}
-N_PROGRAMS = {"quick": 1600, "thorough": 32000}
+N_PROGRAMS = {"quick": 3200, "thorough": 32000}
 MAX_POLICIES = {"quick": 125, "thorough": 400}
 OPTS = {"no_loopy": True, "no_csr": True, "dw_prob": 0.1}
 
